@@ -87,7 +87,7 @@ theorem C03_bar_println_logged (w : RW) (k : Nat) (t : Text) (hk : k < w.bars.le
   have hk' : ¬ k ≥ w.bars.length := by omega
   simp only [barStep, hk', if_false, ha, hm, Bool.not_true, Bool.false_eq_true, barDraw, Bool.true_or]
   rw [draw_forced_log]
-  simp
+  simp [store]
 
 /-- non-vacuity: a concrete history (two log lines, a bar that ticks, finishes and is dropped, a third log
 line) is clean and ends with all three lines in the log and on the screen above the managed rows -/
